@@ -166,6 +166,8 @@ def _atom_occurs(a, k):
         return _ix_occurs(a[1], k) or _ix_occurs(a[2], k)
     if a[0] == "fn":
         return any(x.occurs(k) for x in a[2:])
+    if a[0] == "lt":
+        return _ix_occurs(a[1], k)
     return False
 
 
@@ -176,6 +178,8 @@ def _atom_subst(a, m):
         return ("dl", _ix_subst(a[1], m), _ix_subst(a[2], m))
     if a[0] == "fn":
         return ("fn", a[1]) + tuple(x.subst(m) for x in a[2:])
+    if a[0] == "lt":
+        return ("lt", _ix_subst(a[1], m), a[2])
     return a
 
 
@@ -193,6 +197,8 @@ def _atom_cs(a, env):
         return "d(%s,%s)" % (x, y)
     if a[0] == "fn":
         return "%s(%s)" % (a[1], ";".join(x.cs(env) for x in a[2:]))
+    if a[0] == "lt":
+        return "[%s<%s]" % (_ixs(a[1], env), a[2])
     return "|%s|" % a[1]
 
 
@@ -429,6 +435,9 @@ def _norm_term(c, bound, factors):
                     bound.remove(u)
                     nf = [(_atom_subst(b_, {u: w}), p) for b_, p in d.items() if p]
                     return _norm([(c, tuple(bound), tuple(nf))])
+    for a in list(d):
+        if a[0] == "lt" and d.get(a, 0) > 1:
+            d[a] = 1
     # products of deltas on the same variable with different constants vanish
     seen = {}
     for a in d:
@@ -479,6 +488,68 @@ def _norm_term(c, bound, factors):
 
 ZERO = E(())
 ONE = E(((Fr(1), (), ()),))
+
+
+LOOPVARS = {}     # z3 constant name of a loop counter -> index variable standing for it
+
+
+class LoopBroken(Unmodelled):
+    """A loop contract of front end G was not re-established by the body."""
+
+
+def loop_bound(x, d):
+    """Classify the position a loop invariant is stated at: 0, "END" (the whole dimension d), a loop-counter index variable,
+    or ("succ", variable)."""
+    if isinstance(x, int):
+        return x
+    e = z3.simplify(x.e)
+    if z3.is_int_value(e):
+        return e.as_long()
+    dz = rep(d)
+    if isinstance(dz, Dim) and e.eq(z3.simplify(dz.z)):
+        return "END"
+    if z3.is_const(e):
+        return loop_var(e, d)
+    if z3.is_add(e) and e.num_args() == 2:
+        a, b = e.arg(0), e.arg(1)
+        if z3.is_int_value(a) and a.as_long() == 1 and z3.is_const(b):
+            return ("succ", loop_var(b, d))
+        if z3.is_int_value(b) and b.as_long() == 1 and z3.is_const(a):
+            return ("succ", loop_var(a, d))
+    if isinstance(dz, Dim) and not astvc.VC.cur()._sat(e != dz.z):
+        return "END"          # equal to the dimension's size under the path condition (e.g. max(n, 0) with n >= 1)
+    if not astvc.VC.cur()._sat(e != 0):
+        return 0
+    raise Unmodelled("loop position %s" % e)
+
+
+def loop_var(e, d):
+    nm = e.decl().name()
+    k = LOOPVARS.get(nm)
+    if k is None:
+        k = LOOPVARS[nm] = "L%d" % next(_cnt)
+        IXDIM[k] = rep(d)
+    return k
+
+
+def below(k, bound):
+    """[k < bound] as a scalar expression: 0 at the loop entry, 1 once the loop is over, and
+    [k < i+1] = [k < i] + delta(k, i) in between."""
+    if bound == 0:
+        return ZERO
+    if bound == "END":
+        return ONE
+    if isinstance(bound, int):
+        return sum((delta(k, c) for c in range(bound)), ZERO)
+    if isinstance(bound, tuple):
+        return below(k, bound[1]) + delta(k, bound[1])
+    return E.atom(("lt", k, bound))
+
+
+def partial_sum(d, bound, f):
+    """sum over k in dimension d with k < bound of f(k)."""
+    k = fresh_ix(d)
+    return esum(below(k, bound) * to_E(f(k)), k)
 
 
 def el(name, *ix):
@@ -615,6 +686,8 @@ def _ev_atom(a, sizes, tensors, env):
         return 1.0 if x == y else 0.0
     if a[0] == "dim":
         return float(sizes[a[1]])
+    if a[0] == "lt":
+        return 1.0 if _ix_val(a[1], env, sizes) < env[a[2]] else 0.0
     return _FN[a[1]](*(ev(x, sizes, tensors, env) for x in a[2:]))
 
 
@@ -1261,7 +1334,14 @@ def _select(t, d, c):
     d = d % v.ndim
     n = rep(v.shape[d])
     if isinstance(c, astvc.SymInt):
-        raise Unmodelled("indexing with a symbolic integer")
+        e = z3.simplify(c.e)
+        if z3.is_int_value(e):
+            c = e.as_long()
+        elif z3.is_const(e) and isinstance(n, Dim):
+            # a loop counter ranging over this dimension (the loop contract assumes 0 <= i < n)
+            return _view(t, ("select", d, loop_var(e, n)))
+        else:
+            raise Unmodelled("indexing with a symbolic integer expression")
     c = int(c)
     if isinstance(n, int):
         if not -n <= c < n:
@@ -1442,6 +1522,8 @@ def _getitem(t, key):
         return _cat([_unsqueeze(_select(t, ax, c), ax) for c in cols], ax)
     v = val_of(t)
     n_real = sum(1 for k in key if k is not None and k is not Ellipsis)
+    if any(isinstance(k, astvc.SymInt) for k in key):
+        key = tuple(key)
     out = []
     for k in key:
         if k is Ellipsis:
@@ -1458,6 +1540,8 @@ def _getitem(t, key):
             if k != slice(None):
                 raise Unmodelled("slicing a symbolic-shape tensor with a proper sub-range")
             ax += 1
+        elif isinstance(k, astvc.SymInt):
+            r = _select(r, ax, k)
         elif isinstance(k, (int, np.integer)) and not isinstance(k, bool):
             r = _select(r, ax, int(k))
         else:
@@ -1819,6 +1903,7 @@ def require_at_least(d, n):
 
 def reset_path():
     DIM_LB.clear()
+    LOOPVARS.clear()
     REP.clear()
     del FRAME_WRITES[:]
     INPUTS.clear()
@@ -1985,6 +2070,23 @@ def check_eq(vc, name, got, want, seed=0):
     return None
 
 
+def equal_nf(got, want):
+    """True when two tensors have the same shape and the same normal form (for every size and value)."""
+    got, want = val_of(got), val_of(want)
+    al = _align(got, want)
+    if al is None:
+        return False
+    ix, g, w = al
+    diff = g - w
+    if diff.is_zero():
+        return True
+    conc = [(k, rep(d)) for k, d in zip(ix, want.shape) if isinstance(rep(d), int)]
+    if conc and all(n <= 8 for _k, n in conc):
+        return all(diff.subst(dict(zip([k for k, _n in conc], combo))).is_zero()
+                   for combo in itertools.product(*(range(n) for _k, n in conc)))
+    return False
+
+
 def check_frame(vc, name):
     ok = not FRAME_WRITES
     vc._record(name, "discharged" if ok else "violated", None if ok else "in-place writes into read-only inputs: %s" % (FRAME_WRITES[:4],),
@@ -2042,3 +2144,17 @@ def _sym_tensor_op(f, sym, tensor, reflected):
 
 
 astvc.TENSOR_OPS = _sym_tensor_op
+
+
+# torch's argument parser rejects a symbolic size as the scalar operand of a tensor *method* before __torch_function__
+# is consulted; python-level methods on GT take precedence over the C ones and go straight to the models
+def _bind_method(name):
+    def m(self, *a, **k):
+        PRIMS_USED[name] = PRIMS_USED.get(name, 0) + 1
+        return H[name](self, *a, **k)
+    m.__name__ = name
+    return m
+
+
+for _n in ("add", "sub", "mul", "div", "true_divide", "add_", "sub_", "mul_", "div_", "pow", "pow_"):
+    setattr(GT, _n, _bind_method(_n))
